@@ -351,6 +351,7 @@ type indexCase struct {
 	Transport string   // api | http
 	Providers bool     // false: metadata-only mode; true: provider info from a loopback /providers endpoint
 	QueryMiss []byte   // a multihash that is not indexed
+	Orphans   []int    // entries whose metadata was deleted from the store afterwards (their value keys remain)
 }
 
 func genIndex(t *rapid.T) indexCase {
@@ -384,6 +385,13 @@ func genIndex(t *rapid.T) indexCase {
 		}
 		dup[k], dup[k2] = true, true
 		c.Entries = append(c.Entries, e)
+	}
+	if rapid.IntRange(0, 2).Draw(t, "hasorphans") == 0 {
+		for i := range c.Entries {
+			if rapid.IntRange(0, 2).Draw(t, "orphan") == 0 {
+				c.Orphans = append(c.Orphans, i)
+			}
+		}
 	}
 	ng := rapid.IntRange(0, 3).Draw(t, "ngarbage")
 	for i := 0; i < ng; i++ {
@@ -489,7 +497,14 @@ func runIndex(c indexCase) pbt.Result {
 	st := &memStore{evk: map[string][][]byte{}, emd: map[string][]byte{}}
 	want := map[int][]triple{}
 	perMH := map[int]map[int]bool{}
-	for _, e := range c.Entries {
+	orphan := map[int]bool{}
+	for _, i := range c.Orphans {
+		orphan[i] = true
+	}
+	if len(orphan) > 0 {
+		res.Classes = append(res.Classes, "orphaned-value-keys")
+	}
+	for ei, e := range c.Entries {
 		mh := multihash.Multihash(c.MHs[e.MH])
 		pid := gen.Keys()[e.Provider].ID
 		vk := dhash.CreateValueKey(pid, e.CtxID)
@@ -503,6 +518,11 @@ func runIndex(c indexCase) pbt.Result {
 		}
 		k := dhash.SecondMultihash(mh).B58String()
 		st.evk[k] = append(st.evk[k], evk)
+		if orphan[ei] {
+			// the metadata was removed (deleted by context ID); the value key stays behind and is skipped
+			res.NonTrivial = true
+			continue
+		}
 		st.emd[b58.Encode(dhash.SHA256(vk, nil))] = emd
 		want[e.MH] = append(want[e.MH], triple{pid.String(), string(e.CtxID), string(e.Metadata)})
 		if perMH[e.MH] == nil {
@@ -600,7 +620,7 @@ func runIndex(c indexCase) pbt.Result {
 
 func TestC12_Index(t *testing.T) {
 	pbt.Run(t, pbt.Config{Prop: "C12", Unit: "TestC12_Index", TrackCurrent: true,
-		Rule:        "indexes of 1..5 multihashes -> 1..8 (provider, context ID 0..64 B, metadata 1..200 B) entries, stored through CreateValueKey/EncryptValueKey/EncryptMetadata/SecondMultihash/SHA256 into an independent in-memory dhstore (reached through the DHStoreAPI interface or through the library's HTTP dhstore client against a loopback server), plus 0..3 garbage value keys (0..40 random bytes) placed first; metadata-only mode or provider info from a loopback /providers endpoint; oracle: Find(mh) returns exactly the indexed multiset for each multihash, nothing for a multihash that is not indexed, never an error or crash. Non-trivial: >= 2 providers for one multihash, or garbage keys present; distinct by case.",
+		Rule:        "indexes of 1..5 multihashes -> 1..8 (provider, context ID 0..64 B, metadata 1..200 B) entries, stored through CreateValueKey/EncryptValueKey/EncryptMetadata/SecondMultihash/SHA256 into an independent in-memory dhstore (reached through the DHStoreAPI interface or through the library's HTTP dhstore client against a loopback server), plus 0..3 garbage value keys (0..40 random bytes) placed first; in one case of three a drawn subset of the entries has its metadata deleted again (the value key stays, as after a removal by context ID); metadata-only mode or provider info from a loopback /providers endpoint; oracle: Find(mh) returns exactly the indexed multiset (entries whose metadata is still stored) for each multihash, nothing for a multihash that is not indexed, never an error or crash. Non-trivial: >= 2 providers for one multihash, or garbage keys present; distinct by case.",
 		Assumptions: []string{"metadata is >= 1 byte (the client documents empty metadata as 'no metadata')", "one metadata per (provider, context ID) pair, as the value key addresses the metadata", "providers have no extended providers (expansion is C17)"},
 	}, genIndex, runIndex)
 }
